@@ -681,7 +681,10 @@ def m_str(ex, recv, name, e, st):
         f = z3.Function('str_encode', z3.StringSort(), V, z3.StringSort())
         enc = args[0].t if args else mk_s('utf-8')
         okf = z3.Function('str_encode_ok', z3.StringSort(), V, z3.BoolSort())
-        ex.raise_if(st, z3.Not(okf(s_, enc)), 'UnicodeEncodeError', 'safe/encode', e)
+        if args and z3.is_true(z3.simplify(z3.Or(enc == mk_s('utf-8'), enc == mk_s('utf8')))):
+            used("str.encode('utf-8') is total (strings hold no lone surrogates: assumption A-no-surrogates)")
+        else:
+            ex.raise_if(st, z3.Not(okf(s_, enc)), 'UnicodeEncodeError', 'safe/encode', e)
         return Val(mk_y(f(s_, enc)), 'bytes')
     if name == 'split':
         f = z3.Function('str_split', z3.StringSort(), SeqV, SeqV)
